@@ -1,10 +1,18 @@
 """C10 A sample dimension never mixes samples.
 
 Relational: each callable model is evaluated once with a chosen subset of its
-parameters carrying a leading sample dimension [2] (distinct symbols per sample)
-and once per slice on a freshly built copy; the solver decides equality for every
-sample index.  A configuration that raises is accepted ("fails with an error
-rather than returning a number"); one that returns must match.
+parameters carrying a leading sample shape (distinct symbols per sample) and once
+per slice on a freshly built copy; equality is decided for every sample index.
+A configuration that raises is accepted ("fails with an error rather than
+returning a number"); one that returns must match.
+
+Sample shape [2] for every case.  For the tree likelihood (expand / reshape of
+rates, branch lengths, matrices, frequencies: TreeLikelihoodModel._call, p_t, the
+calculate_treelikelihood_* kernels) EVERY parameter of the composite - including
+the equilibrium frequencies and GTR rates - is batchable, and the sample shapes
+[S] / [S,K] are chosen so that a sample axis has the size of each structural axis
+of the kernel in turn (rate categories 1..5, 4 states, 4 branches, 3 patterns):
+a broadcast of a sample axis against one of those axes needs equal sizes (or 1).
 """
 from __future__ import annotations
 
@@ -20,8 +28,12 @@ from symtorch.axioms import ground_axioms
 from vlib.core import main_for, pmap
 
 PID = 'C10'
-S = 2
+PIN_TIMEOUT = 4  # s, z3 only; pinned (witness-point) queries answer in < 1 s on an idle machine
+S = 2  # default sample shape [2]; tasks carry their own sample shape (see SHAPES_*)
 SEQS = {'t0': 'ACRA', 't1': 'CG-C', 't2': 'GTNG'}
+# rescaled kernels: no column in which two tips are both missing - such a cherry has partials identically 1, the scaler is an exact
+# tie over all categories x states and the argmax decided on the float witness is not reproducible over the reals
+SEQS_RESCALED = {'t0': 'ACRA', 't1': 'CGTC', 't2': 'GT-G'}
 
 
 def register():
@@ -155,7 +167,11 @@ def case_joint_mixed():
     return specs, {'a': P([0.3]), 'y': P([-1.0, 0.8]), 'a_scale': P([1.0], 0.01, None)}, 'm', {}
 
 
-def case_likelihood(tree_kind, site_kind, subst):
+def case_likelihood(tree_kind, site_kind, subst, categories=2, tip_states=False, mu=False, rescale=False):
+    """TreeLikelihoodModel on 3 taxa / 3 site patterns.  Structural axes of the kernel: branches 4, rate categories K
+    (1 constant, 2 invariant, `categories` Weibull), states 4, patterns 3 - the sample shapes of SHAPES_LIKE are chosen
+    to collide with each of them.  Every parameter of the composite is in `params` (= may carry the sample dimension):
+    branch lengths / heights, clock rates, site-model shape / pinv / mu, kappa or GTR rates, AND the frequencies."""
     taxa = cm.taxa_json(3)
     params = {}
     if tree_kind == 'unrooted':
@@ -167,19 +183,31 @@ def case_likelihood(tree_kind, site_kind, subst):
     tree['taxa'] = taxa
     site = {'id': 'site', 'type': 'ConstantSiteModel'}
     if site_kind == 'weibull':
-        site = {'id': 'site', 'type': 'WeibullSiteModel', 'categories': 2, 'shape': {'id': 'shape', 'type': 'Parameter', 'tensor': [0.7]}}
+        site = {'id': 'site', 'type': 'WeibullSiteModel', 'categories': categories,
+                'shape': {'id': 'shape', 'type': 'Parameter', 'tensor': [0.7]}}
         params['shape'] = P([0.7], 0.05, None)
     elif site_kind == 'invariant':
         site = {'id': 'site', 'type': 'InvariantSiteModel', 'invariant': {'id': 'pinv', 'type': 'Parameter', 'tensor': [0.2]}}
         params['pinv'] = P([0.2], 0.01, 0.9)
+    if mu:
+        site['mu'] = {'id': 'mu', 'type': 'Parameter', 'tensor': [1.3]}
+        params['mu'] = P([1.3], 0.01, None)
     if subst == 'JC69':
         sm = {'id': 'subst', 'type': 'JC69'}
+    elif subst == 'GTR':
+        sm = {'id': 'subst', 'type': 'GTR', 'rates': {'id': 'rates', 'type': 'Parameter', 'tensor': [0.8, 1.1, 1.4, 1.7, 2.0, 2.3]},
+              'frequencies': {'id': 'freqs', 'type': 'Parameter', 'tensor': [0.1, 0.2, 0.3, 0.4]}}
+        params['rates'] = P([0.8, 1.1, 1.4, 1.7, 2.0, 2.3], 0.01, None)
+        params['freqs'] = P([0.1, 0.2, 0.3, 0.4], 0.01, None)
     else:
         sm = {'id': 'subst', 'type': 'HKY', 'kappa': {'id': 'kappa', 'type': 'Parameter', 'tensor': [3.0]},
               'frequencies': {'id': 'freqs', 'type': 'Parameter', 'tensor': [0.1, 0.2, 0.3, 0.4]}}
         params['kappa'] = P([3.0], 0.1, None)
+        params['freqs'] = P([0.1, 0.2, 0.3, 0.4], 0.01, None)
     like = {'id': 'm', 'type': 'TreeLikelihoodModel', 'tree_model': tree, 'site_model': site, 'substitution_model': sm,
-            'site_pattern': {'id': 'sp', 'type': 'SitePattern', 'alignment': cm.alignment_json(SEQS, taxa='taxa')}}
+            'site_pattern': {'id': 'sp', 'type': 'SitePattern', 'alignment': cm.alignment_json(SEQS_RESCALED if rescale else SEQS, taxa='taxa')}}
+    if tip_states:
+        like['use_tip_states'] = True
     if tree_kind == 'strict':
         like['branch_model'] = {'id': 'clock', 'type': 'StrictClockModel', 'tree_model': 'tree',
                                 'rate': {'id': 'rate', 'type': 'Parameter', 'tensor': [0.01]}}
@@ -188,7 +216,7 @@ def case_likelihood(tree_kind, site_kind, subst):
         like['branch_model'] = {'id': 'clock', 'type': 'SimpleClockModel', 'tree_model': 'tree',
                                 'rate': {'id': 'rate', 'type': 'Parameter', 'tensor': [0.01, 0.02, 0.015, 0.03]}}
         params['rate'] = P([0.01, 0.02, 0.015, 0.03], 0.0001, None)
-    return [like], params, 'm', {'heights_order': tree_kind != 'unrooted', 'pstub': subst == 'HKYstub'}
+    return [like], params, 'm', {'heights_order': tree_kind != 'unrooted', 'likelihood': True, 'rescale': rescale}
 
 
 CASES = {
@@ -211,7 +239,33 @@ CASES = {
     'likelihood:simple/invariant/JC69': lambda: case_likelihood('simple', 'invariant', 'JC69'),
     'likelihood:unrooted/weibull/HKY': lambda: case_likelihood('unrooted', 'weibull', 'HKY'),
     'likelihood:strict/constant/HKY': lambda: case_likelihood('strict', 'constant', 'HKY'),
+    # --- substitution-model parameters (incl. frequencies) batched against every structural axis of the kernel
+    'likelihood:unrooted/constant/HKY': lambda: case_likelihood('unrooted', 'constant', 'HKY'),
+    'likelihood:unrooted/weibull3/HKY': lambda: case_likelihood('unrooted', 'weibull', 'HKY', categories=3),
+    'likelihood:unrooted/weibull4/HKY': lambda: case_likelihood('unrooted', 'weibull', 'HKY', categories=4),
+    'likelihood:unrooted/weibull5/HKY': lambda: case_likelihood('unrooted', 'weibull', 'HKY', categories=5),
+    'likelihood:unrooted/invariant/HKY': lambda: case_likelihood('unrooted', 'invariant', 'HKY'),
+    'likelihood:unrooted/constant+mu/HKY': lambda: case_likelihood('unrooted', 'constant', 'HKY', mu=True),
+    'likelihood:simple/weibull3/HKY': lambda: case_likelihood('simple', 'weibull', 'HKY', categories=3),
+    'likelihood:unrooted/constant/GTR': lambda: case_likelihood('unrooted', 'constant', 'GTR'),
+    'likelihood:unrooted/weibull/GTR': lambda: case_likelihood('unrooted', 'weibull', 'GTR'),
+    'likelihood:unrooted/weibull3/GTR': lambda: case_likelihood('unrooted', 'weibull', 'GTR', categories=3),
+    'likelihood:unrooted/constant/HKY/tip-states': lambda: case_likelihood('unrooted', 'constant', 'HKY', tip_states=True),
+    'likelihood:unrooted/weibull/HKY/tip-states': lambda: case_likelihood('unrooted', 'weibull', 'HKY', tip_states=True),
+    'likelihood:unrooted/weibull3/HKY/tip-states': lambda: case_likelihood('unrooted', 'weibull', 'HKY', categories=3, tip_states=True),
+    'likelihood:unrooted/weibull/JC69/tip-states': lambda: case_likelihood('unrooted', 'weibull', 'JC69', tip_states=True),
+    'likelihood:unrooted/constant/HKY/rescaled': lambda: case_likelihood('unrooted', 'constant', 'HKY', rescale=True),
+    'likelihood:unrooted/weibull/HKY/rescaled': lambda: case_likelihood('unrooted', 'weibull', 'HKY', rescale=True),
+    'likelihood:unrooted/weibull3/HKY/rescaled': lambda: case_likelihood('unrooted', 'weibull', 'HKY', categories=3, rescale=True),
+    'likelihood:unrooted/weibull/HKY/tip-states/rescaled': lambda: case_likelihood('unrooted', 'weibull', 'HKY', tip_states=True, rescale=True),
 }
+
+# number of rate categories of a likelihood case (the structural axis next to the sample axes in mats / partials / props)
+CATS = {'constant': 1, 'constant+mu': 1, 'invariant': 2, 'weibull': 2, 'weibull3': 3, 'weibull4': 4, 'weibull5': 5}
+
+
+def categories_of(cname):
+    return CATS[cname.split('/')[1]]
 
 
 def build(specs):
@@ -227,29 +281,155 @@ def build(specs):
 def evaluate(obj, opts):
     if opts.get('evaluate') == 'q':
         return obj.q()
+    if opts.get('rescale'):
+        obj.rescale = True  # the state TreeLikelihoodModel keeps after the first underflow: rescaled kernels from then on
     return obj()
 
 
+def sample_indices(shape):
+    return list(itertools.product(*[range(n) for n in shape]))
+
+
+def tag_of(idx):
+    """name suffix of the per-sample symbols: 'p@1' for sample shape [S], 'p@1.0' for [S,K]"""
+    return '.'.join(str(i) for i in idx)
+
+
+def offset_of(k, n):
+    """generic per-sample witness offset (k = flat sample index, n = number of samples): distinct values per sample"""
+    return (0.11 if n <= 5 else 0.04) * (k + 1)
+
+
+def exact_model(d, roots):
+    """Explicit model at the witness point, evaluated in exact rational arithmetic: input symbols and stub output symbols
+    take their witness values, every uninterpreted application (exp, log, sqrt, pow, lgamma, ...) takes the value it had in the
+    witness execution (applications whose exact arguments coincide share one value, so the interpretation is a function).
+    Returns {node: value} for the cone of `roots`, or None when no such model could be built (division by zero,
+    non-finite value, unknown operator)."""
+    from fractions import Fraction
+
+    out = {}
+    table = {}
+    try:
+        for n in d.topo(list(roots)):
+            op = d.ops[n]
+            a = d.args[n]
+            if op == 'const':
+                v = a[0]
+            elif op == 'bconst':
+                v = a[0]
+            elif op == 'var':
+                v = Fraction(d.vals[n])
+            elif op == 'uf':
+                if not math.isfinite(d.vals[n]):
+                    return None
+                # one value per (function, exact arguments): the witness value of the first application met
+                key = (a[0],) + tuple(out[c] for c in a[1:])
+                v = table.setdefault(key, Fraction(d.vals[n]))
+            elif op == 'add':
+                v = out[a[0]] + out[a[1]]
+            elif op == 'mul':
+                v = out[a[0]] * out[a[1]]
+            elif op == 'div':
+                if out[a[1]] == 0:
+                    return None
+                v = out[a[0]] / out[a[1]]
+            elif op == 'ipow':
+                if a[1] < 0 and out[a[0]] == 0:
+                    return None
+                v = out[a[0]] ** a[1]
+            elif op == 'stop':
+                v = out[a[0]]
+            elif op == 'ite':
+                v = out[a[1]] if out[a[0]] else out[a[2]]
+            elif op == 'le':
+                v = out[a[0]] <= out[a[1]]
+            elif op == 'lt':
+                v = out[a[0]] < out[a[1]]
+            elif op == 'eq':
+                v = out[a[0]] == out[a[1]]
+            elif op == 'and':
+                v = all(out[c] for c in a)
+            elif op == 'or':
+                v = any(out[c] for c in a)
+            elif op == 'not':
+                v = not out[a[0]]
+            else:
+                return None
+            out[n] = v
+    except (ValueError, OverflowError, ZeroDivisionError, TypeError):
+        return None
+    return out
+
+
+def model_separates(d, hyps, eq_node):
+    """True when the explicit witness model satisfies every hypothesis and falsifies eq_node (a constructive `sat`)"""
+    m = exact_model(d, list(hyps) + [eq_node])
+    return m is not None and all(m[h] is True for h in hyps) and m[eq_node] is False
+
+
+def witness_differs(d, eq_node):
+    """float witness values of the two sides of a conjunction of equalities differ visibly (candidate for a replay only)"""
+    eqs = [eq_node] if d.ops[eq_node] == 'eq' else [c for c in d.args[eq_node] if d.ops[c] == 'eq'] if d.ops[eq_node] == 'and' else []
+    for e in eqs:
+        x, y = (d.vals[c] for c in d.args[e])
+        if not (abs(x - y) <= 1e-9 * max(1.0, abs(x), abs(y))):
+            return True
+    return False
+
+
+def label_of(cname, batched, shape):
+    label = f'{cname} batched={sorted(batched)}'
+    if tuple(shape) != (S,):
+        label += f' sample_shape={list(shape)}'
+    return label
+
+
 def run_task(task, tr):
+    from symtorch.tensor import UnsupportedOp
     from torchtree.core import model as coremodel
     from torchtree.distributions.joint_distribution import JointDistributionModel
+    from torchtree.evolution import tree_likelihood as tl
+    from torchtree.evolution.substitution_model.abstract import SymmetricSubstitutionModel
     from torchtree.evolution.tree_likelihood import TreeLikelihoodModel
 
-    cname, batched = task
-    label = f'{cname} batched={sorted(batched)}'
+    cname, batched = task[0], task[1]
+    shape = tuple(task[2]) if len(task) > 2 else (S,)
+    idxs = sample_indices(shape)
+    nS = len(idxs)
+    label = label_of(cname, batched, shape)
     tr.fn(coremodel.CallableModel.__call__, JointDistributionModel.log_prob, TreeLikelihoodModel._call)
-    tr.bounds['shapes'] = 'sample shape [2]; quick: all-batched, each-one-unbatched, each-one-batched; thorough: every subset'
+    tr.bounds['shapes'] = ('sample shape [2] for every case; quick: all-batched, each-one-unbatched, each-one-batched; '
+                           'thorough: every subset at [2], and the quick selection at [3] and [2,2]; likelihood cases: see "likelihood"')
     specs, params, target, opts = CASES[cname]()
+    if opts.get('likelihood'):
+        tr.fn(tl.calculate_treelikelihood_discrete, tl.calculate_treelikelihood_tip_states_discrete,
+              SymmetricSubstitutionModel.p_t, TreeLikelihoodModel._sample_shape)
+        tr.bounds['likelihood'] = BOUNDS_LIKE
+        tr.stubs.add('torch.linalg.eigh / inverse of the eigenvector matrix (HKY, GTR p_t): functional contract stub, batch-capable - '
+                     'the same symbolic matrix gives the same eigen symbols in the batched and in the per-slice run')
+        tr.assumptions.add('likelihood cases: 3 taxa, topology ((t0,t1),t2), alignment ACRA/CG-C/GTNG (3 patterns, weights 2,1,1, '
+                           'one ambiguity code, one gap, one N; ACRA/CGTC/GT-G for the rescaled kernels: no column with two missing tips, '
+                           'whose scaler would be an exact tie); parameter values are symbolic, topology and data are fixed')
+        tr.assumptions.add('likelihood cases: over the reals every log-likelihood is finite, so the isinf test of _call takes the '
+                           'non-rescaled kernel; the rescaled kernels are entered through the state rescale=True that the model keeps after '
+                           'a first underflow ("/rescaled" cases); calculate_treelikelihood_discrete_safe (the one call in which the '
+                           'underflow is detected) is not covered here - C03')
+        if opts.get('rescale'):
+            tr.fn(tl.calculate_treelikelihood_discrete_rescaled, tl.calculate_treelikelihood_tip_states_discrete_rescaled)
+            tr.bounds['likelihood, rescaled kernels'] = ('decided on the path region of the witness only: the position of the per-site '
+                                                         'maximum (scaler) of every internal node is fixed by path conditions, identical in the '
+                                                         'batched and the per-slice run; no coverage certificate over the other argmax patterns')
     with tracing() as t:
         d = t.dag
         dom = []
         V = {}
 
-        def symbols(pname, s):
+        def symbols(pname, k, idx):
             vals, lo, hi = params[pname]
-            off = 0.0 if s is None else 0.11 * (s + 1)
+            off = 0.0 if idx is None else offset_of(k, nS)
             vv = [v * (1 + off) + (off if lo is None else 0) for v in vals]
-            nm = pname if s is None else f'{pname}@{s}'
+            nm = pname if idx is None else f'{pname}@{tag_of(idx)}'
             st = new_vars(nm, torch.tensor(vv, dtype=torch.float64))
             for i in st._ids.tolist():
                 V[d.args[i][0]] = i
@@ -259,28 +439,51 @@ def run_task(task, tr):
                     dom.append(d.lt(i, d.const(hi)))
             return st
 
-        shared = {p: symbols(p, None) for p in params if p not in batched}
-        per_s = {p: [symbols(p, s) for s in range(S)] for p in batched}
+        shared = {p: symbols(p, None, None) for p in params if p not in batched}
+        per_s = {p: {idx: symbols(p, k, idx) for k, idx in enumerate(idxs)} for p in batched}
         if opts.get('heights_order'):
-            hs = [per_s['tree.heights'][s] for s in range(S)] if 'tree.heights' in batched else [shared['tree.heights']]
+            hs = [per_s['tree.heights'][idx] for idx in idxs] if 'tree.heights' in batched else [shared['tree.heights']]
             for h in hs:
                 ids = h._ids.tolist()
                 dom.append(d.lt(ids[0], ids[1]))
         # batched run
         A = build(specs)
         raised = None
+        engine = False
         try:
             for p in params:
                 if p in batched:
-                    ids = torch.stack([x._ids for x in per_s[p]])
-                    A[p].tensor = from_ids(ids)
+                    ids = torch.stack([per_s[p][idx]._ids for idx in idxs])
+                    A[p].tensor = from_ids(ids.reshape(shape + (ids.shape[-1],)))
                 else:
                     A[p].tensor = from_ids(shared[p]._ids.clone())
             val = evaluate(A[target], opts)
         except Exception as e:  # unsupported shape combination: allowed to fail loudly
             raised = f'{type(e).__name__}: {e}'
+            engine = isinstance(e, UnsupportedOp)
         tr.witness_runs += 1
         tr.regions += 1
+        if raised is not None and engine:
+            # the ENGINE could not follow the code: that is not "the library fails with an error".  Decide on the real
+            # code whether the configuration raises; if it returns a number the configuration is undecided.
+            try:
+                rep, detail = replay_case(cname, batched, {}, shape)
+            except Exception as e:  # noqa
+                rep, detail = None, f'{type(e).__name__}: {e}'
+            if rep is False and detail.startswith('batched evaluation raises'):
+                raised = detail
+            elif opts.get('likelihood'):
+                tr.inconc(f'{label}: symbolic engine limitation ({raised[:80]}) and the real code returns a value: undecided')
+                return
+            else:
+                tr.bounds[f'NOT decided: {label}'] = f'symbolic engine limitation ({raised[:60]}); the real code returns a value; only the concrete witness replay was run'
+                tr.notes.append(f'{label}: NOT DECIDED - the symbolic engine does not support an operation on this path ({raised[:60]}); '
+                                f'concrete witness replay on the real code: {detail[:80]}')
+                tr.sample({'case': label, 'outcome': 'not decided (engine limitation)', 'error': raised[:100]})
+                if rep:
+                    tr.violation(f'{cname}:batched={sorted(batched)}:mixes-samples',
+                                 f'{label}: witness replay on the real code: {detail}', {'label': label, 'values': {}, 'shape': list(shape)})
+                return
         if raised is not None:
             tr.notes.append(f'{label}: raises ({raised[:80]}) - accepted: fails with an error rather than returning a number')
             tr.sample({'case': label, 'outcome': 'raises', 'error': raised[:100]})
@@ -291,16 +494,18 @@ def run_task(task, tr):
             return
         goals = []
         vb = val._ids
-        if vb.dim() == 0 or vb.shape[0] != S or vb.numel() % S:
+        if vb.dim() < len(shape) or tuple(vb.shape[:len(shape)]) != shape or vb.numel() % nS:
             goals.append((f'value has one entry per sample (shape {tuple(vb.shape)})', d.FALSE, [], f'{cname}:batched={sorted(batched)}:shape'))
         else:
-            for s in range(S):
+            for idx in idxs:
+                s = tag_of(idx)
                 B = build(specs)
                 for p in params:
-                    src = per_s[p][s] if p in batched else shared[p]
+                    src = per_s[p][idx] if p in batched else shared[p]
                     B[p].tensor = from_ids(src._ids.clone())
                 vs = evaluate(B[target], opts)
-                a = vb[s].reshape(-1).tolist()
+                tr.witness_runs += 1
+                a = vb[idx].reshape(-1).tolist()
                 b = vs._ids.reshape(-1).tolist()
                 if len(a) != len(b):
                     goals.append((f'sample {s}: slice value has the same number of entries', d.FALSE, [], f'{cname}:batched={sorted(batched)}:shape'))
@@ -308,39 +513,104 @@ def run_task(task, tr):
                     g = d.and_(*[d.eq(x, y) for x, y in zip(a, b)])
                     goals.append((f'sample {s}: value[{s}] == value computed from slice {s} alone', g, ground_axioms(d, [g]),
                                   f'{cname}:batched={sorted(batched)}:mixes-samples'))
-        # vacuity guard (solver): the two samples must be able to produce different values, otherwise mixing
-        # could not be observed
-        if vb.dim() >= 1 and vb.shape[0] == S:
-            from symtorch.explore import prove
+        # variables pinned at the (generic, per-sample distinct) witness point: used for `sat` questions only - a model
+        # of the pinned query is a model of the unpinned one, and pinning turns the nonlinear search into evaluation
+        from symtorch.explore import _to_float, prove
 
-            a0, a1 = vb[0].reshape(-1).tolist(), vb[1].reshape(-1).tolist()
+        hyps = dom + list(t.pcs)
+
+        def pins_for(roots):
+            """every input symbol, stub output symbol and uninterpreted application (exp/log/sqrt/pow/eigen) below `roots`
+            fixed at its value in the explicit witness model: what is left for the solver is rational arithmetic"""
+            from fractions import Fraction
+
+            m = exact_model(d, list(roots) + list(V.values())) or {}
+            out = []
+            for n in sorted(set(d.topo(list(roots))) | set(V.values())):
+                if d.ops[n] in ('var', 'uf') and math.isfinite(d.vals[n]):
+                    out.append(d.eq(n, d.const(m.get(n, Fraction(d.vals[n])))))
+            return out
+
+        # vacuity guard (solver): two samples must be able to produce different values, otherwise mixing
+        # could not be observed
+        if nS >= 2 and vb.dim() >= len(shape) and tuple(vb.shape[:len(shape)]) == shape:
+            a0, a1 = vb[idxs[0]].reshape(-1).tolist(), vb[idxs[1]].reshape(-1).tolist()
             cands = [(d.size([x, y]), d.eq(x, y)) for x, y in zip(a0, a1) if x != y]
             if not cands:
                 tr.inconc(f'{label}: vacuity guard: the value does not depend on the batched parameters')
             else:
-                st, r, _ = prove(d, dom + list(t.pcs), min(cands)[1], timeout=30, tr=tr, label='vacuity guard', parallel=True)
+                guard = min(cands)[1]
+                st, r, _ = prove(d, hyps + pins_for([guard]), guard, timeout=PIN_TIMEOUT, solvers=('z3',), tr=tr, label='vacuity guard (witness point)')
+                if st != 'refuted' and model_separates(d, hyps, guard):
+                    # the solver did not answer in time (machine load): the model is exhibited and checked in exact arithmetic
+                    st = 'refuted'
+                    tr.notes.append(f'{label}: vacuity guard settled by an explicit model (witness point, exact rational evaluation)')
+                if st != 'refuted':
+                    st, r, _ = prove(d, hyps, guard, timeout=30, tr=tr, label='vacuity guard', parallel=True)
                 if st == 'proved':
                     tr.inconc(f'{label}: vacuity guard: both samples always give the same value')
+                elif st != 'refuted' and opts.get('likelihood') and 'freqs' in params:
+                    tr.inconc(f'{label}: vacuity guard undecided: no model found in which two samples differ')
+        elif nS == 1:
+            tr.notes.append(f'{label}: one sample - nothing to mix; decided: the value has shape {list(shape)}+[..] and equals the slice value')
         tr.ops_checked += t.nchecked
         tr.sample({'case': label, 'outcome': 'returns', 'shape': list(vb.shape), 'path_conditions': len(t.pcs)})
 
         def replay(vals):
-            return replay_case(cname, batched, vals)
+            return replay_case(cname, batched, vals, shape)
 
+        before = len(tr.violations)
+        # goals that are not closed syntactically: first ask for a counterexample AT the witness point (cheap `sat`), replay it
+        # on the real code; whatever is not refuted there goes to the full (unpinned) query
+        rest = []
+        for g in goals:
+            if g[1] in (d.TRUE, d.FALSE) or tr.violations[before:]:
+                rest.append(g)
+                continue
+            st, r, _ = prove(d, hyps + pins_for([g[1]]), g[1], timeout=PIN_TIMEOUT, solvers=('z3',), get_values=list(V.values()), tr=tr,
+                             label=g[0] + ' (witness point)')
+            vals = None
+            if st == 'refuted':
+                vals = {n: _to_float(r.values[i]) for n, i in V.items() if i in r.values}
+            elif model_separates(d, hyps, g[1]) or witness_differs(d, g[1]):
+                # no answer in time (machine load / many path conditions): explicit model at the witness point, checked in
+                # exact arithmetic - or at least the float witness execution separates; the replay on the real code decides
+                vals = {n: float(d.vals[i]) for n, i in V.items()}
+            if vals is not None:
+                ok, detail = replay(vals)
+                if ok:
+                    tr.violation(g[3], f'{label}: {g[0]} fails at {vals}: {detail}', {'label': label, 'values': vals})
+                    continue
+            rest.append(g)
+        if tr.violations[before:]:
+            # a replayed counterexample exists for this configuration: the remaining open equalities of the same configuration
+            # are not pushed through the 40 s unpinned query
+            skipped = [g for g in rest if g[1] not in (d.TRUE, d.FALSE)]
+            rest = [g for g in rest if g[1] in (d.TRUE, d.FALSE)]
+            if skipped:
+                tr.notes.append(f'{label}: {len(skipped)} further sample equalities not queried after the replayed counterexample')
         # eigen contract rows as hypotheses are not needed: the stub is functional (same input -> same symbols)
-        cm.discharge(tr, d, dom + list(t.pcs), goals, label, replay=replay, varnodes=V, defined=False, timeout=40,
+        cm.discharge(tr, d, hyps, rest, label, replay=replay, varnodes=V, defined=False, timeout=40,
                      threads=2, parallel=True)
+        for v in tr.violations[before:]:
+            if isinstance(v.get('replay'), dict):
+                v['replay'].update({'case': cname, 'batched': sorted(batched), 'shape': list(shape)})
 
 
-def replay_case(cname, batched, vals):
+def replay_case(cname, batched, vals, shape=(S,)):
+    """plain tensors on the real code: batched evaluation against per-slice evaluations of freshly built copies"""
     specs, params, target, opts = CASES[cname]()
+    shape = tuple(shape)
+    idxs = sample_indices(shape)
+    nS = len(idxs)
 
-    def value(p, s):
+    def value(p, k, idx):
         base, lo, hi = params[p]
-        names = cm.names_shaped(p if s is None else f'{p}@{s}', (len(base),))
+        names = cm.names_shaped(p if idx is None else f'{p}@{tag_of(idx)}', (len(base),))
         out = []
         for nm, b in zip(names, base):
-            v = vals.get(nm, b * (1 + (0 if s is None else 0.11 * (s + 1))))
+            off = 0.0 if idx is None else offset_of(k, nS)
+            v = vals.get(nm, b * (1 + off) + (off if (lo is None and idx is not None) else 0))
             if lo is not None and v <= lo:
                 v = lo + abs(b)
             if hi is not None and v >= hi:
@@ -356,27 +626,27 @@ def replay_case(cname, batched, vals):
     try:
         for p in params:
             if p in batched:
-                A[p].tensor = torch.tensor([value(p, s) for s in range(S)], dtype=torch.float64)
+                A[p].tensor = torch.tensor([value(p, k, idx) for k, idx in enumerate(idxs)], dtype=torch.float64).reshape(shape + (-1,))
             else:
-                A[p].tensor = torch.tensor(value(p, None), dtype=torch.float64)
+                A[p].tensor = torch.tensor(value(p, None, None), dtype=torch.float64)
         for k in ('freqs',):
             if k in A:
                 A[k].tensor = A[k].tensor.to(torch.float64)
         val = evaluate(A[target], opts).to(torch.float64)
     except Exception as e:
         return False, f'batched evaluation raises ({type(e).__name__}): accepted'
-    if val.dim() == 0 or val.shape[0] != S:
-        return True, f'value has shape {tuple(val.shape)}: not one entry per sample'
-    for s in range(S):
+    if val.dim() < len(shape) or tuple(val.shape[:len(shape)]) != shape:
+        return True, f'value has shape {tuple(val.shape)}: not one entry per sample of sample shape {list(shape)}'
+    for k, idx in enumerate(idxs):
         B = build(specs)
         for p in params:
-            B[p].tensor = torch.tensor(value(p, s if p in batched else None), dtype=torch.float64)
-        for k in ('freqs',):
-            if k in B:
-                B[k].tensor = B[k].tensor.to(torch.float64)
+            B[p].tensor = torch.tensor(value(p, k, idx) if p in batched else value(p, None, None), dtype=torch.float64)
+        for kk in ('freqs',):
+            if kk in B:
+                B[kk].tensor = B[kk].tensor.to(torch.float64)
         vs = evaluate(B[target], opts).to(torch.float64)
-        if vs.numel() != val[s].numel() or not torch.allclose(val[s].reshape(-1), vs.reshape(-1), rtol=1e-8, atol=1e-10):
-            return True, f'sample {s}: batched value {val[s].tolist()} but slice alone gives {vs.tolist()}'
+        if vs.numel() != val[idx].numel() or not torch.allclose(val[idx].reshape(-1), vs.reshape(-1), rtol=1e-8, atol=1e-10):
+            return True, f'sample {tag_of(idx)}: batched value {val[idx].tolist()} but slice alone gives {vs.tolist()}'
     return False, 'agree'
 
 
@@ -395,23 +665,163 @@ def subsets(names, tier):
     return sorted(out, key=lambda s: (len(s), sorted(s)))
 
 
+BOUNDS_LIKE = ''  # set by body()
+
+
+def like_subsets(params, tier):
+    """subsets of a likelihood case that carry the sample dimension on the substitution model"""
+    names = sorted(params)
+    sub_params = [p for p in ('kappa', 'rates', 'freqs') if p in params]
+    out = []
+    for sub in subsets(names, 'thorough'):
+        if not (sub & set(sub_params)):
+            continue
+        out.append(sub)
+    if tier != 'thorough':
+        # all, substitution model only, frequencies only, substitution model + each single other parameter,
+        # everything but the frequencies / but the exchangeabilities
+        sm = frozenset(sub_params)
+        keep = {frozenset(names), sm, frozenset(['freqs']), frozenset(names) - {'freqs'}, frozenset(names) - (sm - {'freqs'})}
+        for n in names:
+            keep.add(sm | {n})
+        out = [s for s in out if s in keep]
+    return out
+
+
+OLD_CASES = [c for c in CASES if not c.startswith('likelihood:')] + [
+    'likelihood:unrooted/constant/JC69', 'likelihood:strict/weibull/JC69', 'likelihood:simple/invariant/JC69',
+    'likelihood:unrooted/weibull/HKY', 'likelihood:strict/constant/HKY']
+
+GRID1 = [(s,) for s in range(1, 6)]
+GRID2 = [(s, k) for s in range(1, 6) for k in range(1, 6)]
+# sample shapes per likelihood case; chosen so that a sample axis has the size of each structural axis in turn
+# (rate categories K, states 4, branches 4, patterns 3), is 1, or differs from all of them
+LIKE_SHAPES = {
+    'quick': {
+        'likelihood:unrooted/constant/HKY': [(1,), (3,), (4,), (2, 3)],  # K = 1
+        'likelihood:unrooted/weibull/HKY': [(3,), (2, 2), (3, 2)],  # K = 2 ([2] is in the base set)
+        'likelihood:unrooted/weibull3/HKY': [(2,), (3,), (2, 3), (3, 3)],  # K = 3
+        'likelihood:unrooted/weibull4/HKY': [(4,), (1, 4), (4, 1)],  # K = 4
+        'likelihood:unrooted/weibull5/HKY': [(5,)],  # K = 5
+        'likelihood:unrooted/invariant/HKY': [(2,), (3,)],  # K = 2
+        'likelihood:unrooted/constant+mu/HKY': [(2,)],
+        'likelihood:strict/constant/HKY': [(4,)],
+        'likelihood:simple/weibull3/HKY': [(3,), (4,)],
+        'likelihood:unrooted/constant/GTR': [(2,), (3,)],
+        'likelihood:unrooted/weibull/GTR': [(2,), (2, 2)],
+        'likelihood:unrooted/weibull3/GTR': [(3,)],
+        'likelihood:unrooted/constant/HKY/tip-states': [(2,), (3,)],
+        'likelihood:unrooted/weibull/HKY/tip-states': [(2,), (3, 2)],
+        'likelihood:unrooted/weibull3/HKY/tip-states': [(3,)],
+        'likelihood:unrooted/weibull/JC69/tip-states': [(2,)],
+        'likelihood:unrooted/constant/HKY/rescaled': [(3,)],
+        'likelihood:unrooted/weibull/HKY/rescaled': [(2,), (2, 2)],
+        'likelihood:unrooted/weibull3/HKY/rescaled': [(3,)],
+        'likelihood:unrooted/weibull/HKY/tip-states/rescaled': [(2,)],
+    },
+    'thorough': {
+        'likelihood:unrooted/constant/HKY': GRID1 + GRID2,
+        'likelihood:unrooted/weibull/HKY': GRID1 + GRID2,
+        'likelihood:unrooted/weibull3/HKY': GRID1 + GRID2,
+        'likelihood:unrooted/weibull4/HKY': GRID1 + [(1, 4), (4, 1), (4, 4), (2, 4), (4, 2), (3, 4)],
+        'likelihood:unrooted/weibull5/HKY': GRID1 + [(1, 5), (5, 1), (5, 5), (2, 5), (5, 2)],
+        'likelihood:unrooted/invariant/HKY': GRID1 + [(2, 2), (3, 2), (2, 3)],
+        'likelihood:unrooted/constant+mu/HKY': GRID1 + [(2, 2), (2, 3)],
+        'likelihood:strict/constant/HKY': GRID1 + [(2, 2), (2, 4)],
+        'likelihood:simple/weibull3/HKY': GRID1 + [(2, 3), (3, 3), (3, 4)],
+        'likelihood:unrooted/constant/GTR': GRID1 + [(2, 2), (2, 3), (3, 4)],
+        'likelihood:unrooted/weibull/GTR': GRID1 + [(2, 2), (3, 2), (2, 3)],
+        'likelihood:unrooted/weibull3/GTR': GRID1 + [(2, 3), (3, 3)],
+        'likelihood:unrooted/constant/HKY/tip-states': GRID1 + [(2, 2), (2, 3), (3, 4)],
+        'likelihood:unrooted/weibull/HKY/tip-states': GRID1 + [(2, 2), (3, 2), (2, 3)],
+        'likelihood:unrooted/weibull3/HKY/tip-states': GRID1 + [(2, 3), (3, 3)],
+        'likelihood:unrooted/weibull/JC69/tip-states': GRID1 + [(2, 2), (3, 2)],
+        'likelihood:unrooted/constant/HKY/rescaled': GRID1 + [(2, 3)],
+        'likelihood:unrooted/weibull/HKY/rescaled': GRID1 + [(2, 2), (3, 2)],
+        'likelihood:unrooted/weibull3/HKY/rescaled': GRID1 + [(2, 3), (3, 3)],
+        'likelihood:unrooted/weibull/HKY/tip-states/rescaled': GRID1 + [(2, 2)],
+    },
+}
+# thorough: every subset (that batches a substitution-model parameter) for sample shapes [S]; the selection of
+# like_subsets(quick) for sample shapes [S,K]
+# other (non-likelihood) cases, thorough tier only: further sample shapes with the quick subset selection
+OTHER_SHAPES_THOROUGH = [(3,), (2, 2)]
+
+
 def tasks_for(tier):
     ts = []
-    for cname, mk in CASES.items():
-        _, params, _, _ = mk()
+    for cname in OLD_CASES:
+        _, params, _, _ = CASES[cname]()
         for sub in subsets(params.keys(), tier):
-            ts.append((cname, sub))
-    return ts
+            ts.append((cname, sub, (S,)))
+    for cname, shapes in LIKE_SHAPES['thorough' if tier == 'thorough' else 'quick'].items():
+        _, params, _, _ = CASES[cname]()
+        for shape in shapes:
+            if any(p in params for p in ('kappa', 'rates', 'freqs')):
+                subs = like_subsets(params, tier if len(shape) == 1 else 'quick')
+            else:
+                subs = subsets(params.keys(), tier if len(shape) == 1 else 'quick')
+            for sub in subs:
+                ts.append((cname, sub, tuple(shape)))
+    if tier == 'thorough':
+        for cname in OLD_CASES:
+            if cname.startswith('likelihood:') and cname in LIKE_SHAPES['thorough']:
+                continue
+            _, params, _, _ = CASES[cname]()
+            for shape in OTHER_SHAPES_THOROUGH:
+                for sub in subsets(params.keys(), 'quick'):
+                    ts.append((cname, sub, shape))
+    seen = set()
+    out = []
+    for tsk in ts:
+        if tsk not in seen:
+            seen.add(tsk)
+            out.append(tsk)
+    # heavy (many samples) first: better packing over the worker pool
+    out.sort(key=lambda x: -torch.Size(x[2]).numel())
+    return out
+
+
+def shapes_text(v):
+    v = [tuple(s) for s in v]
+    out = []
+    if all(s in v for s in GRID1):
+        out.append('[S] S=1..5')
+        v = [s for s in v if s not in GRID1]
+    if all(s in v for s in GRID2):
+        out.append('[S,K] S,K=1..5')
+        v = [s for s in v if s not in GRID2]
+    return ' + '.join(out + [str(list(s)) for s in v])
+
+
+def bounds_like(tier):
+    sh = LIKE_SHAPES['thorough' if tier == 'thorough' else 'quick']
+    sel = ('{all, substitution model only, frequencies only, all but frequencies, all but kappa/rates, substitution model + one '
+           'other parameter}')
+    return ('TreeLikelihoodModel with HKY / GTR, the frequencies among the batchable parameters; kernels: tip partials, tip states, and '
+            '(cases "/rescaled") their rescaled variants; rate categories K in 1..5 (constant, constant+mu, invariant, Weibull 2..5); '
+            'unrooted / strict-clock / per-branch-clock trees on 3 taxa; every sample shape listed is checked for EVERY sample index; '
+            'sample shapes per case (chosen to collide with K, 4 states, 4 branches, 3 patterns, and 1): '
+            + '; '.join(f"{c.split(':', 1)[1]}: {shapes_text(v)}" for c, v in sh.items())
+            + (f'; subsets: every subset that batches kappa / rates / frequencies for shapes [S], the selection {sel} for [S,K]'
+               if tier == 'thorough' else f'; subsets: {sel}')
+            + '; the five base likelihood cases (JC69 x3, unrooted/weibull/HKY, strict/constant/HKY) run at [2] with the generic subset '
+              'selection, frequencies included')
 
 
 def body(chk):
-    chk.explanation = ('two-run relational symbolic execution: the real model evaluated with a subset of parameters batched '
-                       '[2] (distinct symbols per sample) versus freshly built copies evaluated on each slice; equality per '
-                       'sample index decided by the solver for all parameter values (a mixing bug gives a value that mentions '
-                       'symbols of the other sample)')
+    chk.explanation = ('two-run relational symbolic execution: the real model evaluated with a subset of parameters carrying a sample '
+                       'shape ([2] everywhere; [S], [S,K] up to 5x5 for the tree likelihood; distinct symbols per sample) versus freshly '
+                       'built copies evaluated on each slice; equality for EVERY sample index decided for all parameter values: closed by '
+                       'hash-consing when both runs build the identical expression, otherwise by the solver (a mixing bug gives a value '
+                       'that mentions symbols of another sample: counterexample first sought at the witness point, replayed on the real '
+                       'code with plain tensors); per configuration a solver vacuity guard (two samples CAN give different values: sat, '
+                       'with the model checked in exact arithmetic when the solver times out)')
     chk.total.assumptions |= {'eigh is a functional contract stub (same symbolic input -> same symbols), so batched and sliced runs see the same eigen symbols',
                               'a batched evaluation that raises is accepted by the property ("fails with an error"); such configurations are listed in the notes',
                               'site models and node-height transforms are covered batched in C05 / C06; BDSK in C09'}
+    global BOUNDS_LIKE
+    BOUNDS_LIKE = bounds_like(chk.tier)
     pmap(run_task, tasks_for(chk.tier), chk.total)
 
 
@@ -421,5 +831,12 @@ if __name__ == '__main__':
 
         r = json.load(open(sys.argv[sys.argv.index('--replay') + 1]))
         print('replay:', r['what'])
+        rp = r.get('replay') or {}
+        if isinstance(rp, dict) and 'case' in rp:
+            # re-run the recorded counterexample on the real code (plain tensors, per-slice oracle)
+            torch.set_default_dtype(torch.float64)
+            bad, detail = replay_case(rp['case'], frozenset(rp['batched']), rp.get('values') or {}, tuple(rp.get('shape', (S,))))
+            print('reproduced:' if bad else 'NOT reproduced:', detail)
+            sys.exit(1 if bad else 0)
         sys.exit(1)
     sys.exit(main_for(PID, body))
